@@ -135,8 +135,8 @@ func (c *CFG) IsExit(b *cfg.Block) bool {
 	if len(b.Succs) != 0 {
 		return false
 	}
-	if b.Kind == cfg.KindSelectAfterCase {
-		return false // select without default: blocks
+	if b.Kind == cfg.KindSelectAfterCase && len(b.Nodes) == 0 {
+		return false // select without default: blocks (with a default arm, go/cfg emits the arm's statements into this block)
 	}
 	if n := len(b.Nodes); n > 0 {
 		if es, ok := b.Nodes[n-1].(*ast.ExprStmt); ok {
